@@ -162,7 +162,7 @@ def _extract_impl(src, imp, it, log, where):
         else:
             dropped.append(name)
         pos = fitem.end
-    missing = set(methods) - seen
+    missing = set(m for m in methods if not methods[m].get("optional")) - seen
     if missing:
         raise Unsupported("anchor lost: methods %s not found in %s" % (sorted(missing), where))
     if dropped:
@@ -269,6 +269,8 @@ def build_unit(snapshot, unit):
         if it["kind"] in ("impl", "trait") and "methods" in it:
             for mname, ms in it["methods"].items():
                 if ms.get("drop_body"):
+                    continue
+                if ms.get("optional") and not re.search(r"\bfn\s+%s\b" % re.escape(mname), text):
                     continue
                 fns.append({"fn": mname, "file": it["file"], "line": line, "impl": it.get("impl"),
                             "contract": " ".join(ms.get("contract", "").split()),
